@@ -4,7 +4,11 @@ import json
 
 TECH = 'contract-based deductive verification: sidecar contracts on the real functions, VCs from the ast by symbolic execution, discharged by z3 (E-matching; MBQI/cvc5 second opinion)'
 COMMON_NOTE = ('trusted base = library models of networkx/asyncio/stdlib and the user-code havoc (listed per run in evidence.trusted_base); '
-               'Python subset and dropped constructs in DESIGN §2.2-2.3; ')
+               'Python subset and dropped constructs in DESIGN §2.2-2.3; a function the verifier cannot decide (contract no longer fits '
+               'refactored code, unsupported construct, solver timeout) is UNDECIDED unless a registered BOUNDED stand-in (bounded/*.py: the real '
+               'code on a stated finite family of inputs, DESIGN 9.8) takes over - reported as bounded in the evidence, never counted as proved; ')
+BOUNDED_PROPS = {'bounded/builder.py': ['C15', 'C16'],
+                 'bounded/engine.py': ['C01', 'C02', 'C03', 'C04', 'C05', 'C09', 'C10', 'C11', 'C12', 'C13', 'C14', 'C19']}
 
 P = {
  'C01': ('function contracts for run/_get_dag_result/_get_node_kwargs/sub-dag construction/_run_node proved for all graphs and states; '
@@ -63,9 +67,14 @@ def main():
                    baseline_off_cmd='cd /repo && /venv/bin/python -m pytest -ra -q -p no:cacheprovider --timeout=900 --continue-on-collection-errors',
                    source_commits=[], add_only=True),
         engines=[dict(name='pyvc', path='pyvc/', serves_properties=sorted(P),
-                      kind_free_text='home-built deductive verifier for a Python subset: ast -> symbolic execution against sidecar contracts -> z3/cvc5')],
+                      kind_free_text='home-built deductive verifier for a Python subset: ast -> symbolic execution against sidecar contracts -> z3/cvc5')]
+        + [dict(name=k, path=k, serves_properties=v,
+                kind_free_text='BOUNDED stand-in (not a proof): runs the real code under /venv on a stated finite family of inputs against the '
+                               'property statement; used only for functions the verifier left undecided and as extra exploration in the thorough tier')
+           for k, v in BOUNDED_PROPS.items()],
         checks=checks,
-        notes='known findings (genuine defects recorded, with replays) in known_findings.json; fix: commits 9c45089, bf3654a, 2c9fa39 in /repo',
+        notes='known findings (genuine defects recorded, with replays) and fixed defects in known_findings.json; fix: commits in /repo: '
+              '9c45089 bf3654a 2c9fa39 c36aa6e 3a3f466 0a0e585 e9f543d 16ff58a e84cc41; seeded changes and catch matrix in seeded/ and DESIGN 9.5',
         not_applicable=[dict(property_id=k, reason=v) for k, v in sorted(NOT_BUILT.items())],
     )
     json.dump(m, open('MANIFEST.json', 'w'), indent=1)
